@@ -464,7 +464,7 @@ CLAIMS = [
     Claim("c05_num_tail", "C05", "quick", claim_num_tail,
           "parse_num_tail maps (sign, magnitude) to exactly the integer in [-2^63, 2^64-1] (-0, -2^63, 2^63 included), "
           "to the nearest double below that range, and enters the fraction/exponent scanners only for radix 10",
-          "all u64 magnitudes, both signs, 4 radixes, every next byte / EOF / I/O error", configs=("fast",), also=("C01", "C13")),
+          "all u64 magnitudes, both signs, 4 radixes, every next byte / EOF / I/O error", configs=("fast",), also=("C01", "C13", "C04")),
     Claim("c05_long_integer_step", "C05", "quick", claim_long_integer,
           "parse_long_integer counts exactly the remaining digits of an over-long integer and hands "
           "significand x radix^k (in the stated radix) to the float conversion",
